@@ -361,21 +361,34 @@ pub fn emit_run(out: &mut Out, tag: &str, names: &str, reg: &Registry, root: (u3
     use std::io::Write;
     let mut h: u64 = 0xcbf29ce484222325;
     for b in o.report.bytes() { h = (h ^ b as u64).wrapping_mul(0x100000001b3); }
-    writeln!(out.w, "{}\t(res {}) {} (heap ok)\t{}\t{:016x}", case, o.result, o.store, nontrivial(o) as u8, h).unwrap();
+    writeln!(out.w, "{}\t(res {}) {} (heap ok) (gen ok)\t{}\t{:016x}", case, o.result, o.store, nontrivial(o) as u8, h).unwrap();
 }
 
 /// run with both name types, check in-process repeatability, emit
+/// the strategy, when it is a pure function of (package, set): the driver then runs the GENERATING model against it
+fn strat_sx(choose: &ChooseMode, prio: &PrioMode) -> String {
+    let c = match choose { ChooseMode::Newest => "newest", ChooseMode::Oldest => "oldest", ChooseMode::Script => return String::new() };
+    let p = match prio {
+        PrioMode::Static(v) => format!("(static {})", v.iter().map(|x| x.to_string()).collect::<Vec<_>>().join(" ")),
+        PrioMode::Count => "(count)".to_string(),
+        PrioMode::CountThen(b) => format!("(countthen {})", *b as u8),
+        _ => return String::new(),
+    };
+    format!(" (strat {} {})", c, p)
+}
+
 pub fn run_and_emit(out: &mut Out, reg: &Registry, root: (u32, u32), choose: &ChooseMode, prio: &PrioMode, script: &[u32], strings: bool) -> RunOut {
+    let strat = strat_sx(choose, prio);
     let a = run_once::<u32>(reg, root, choose, prio, script, &Fault::None);
     // the repetition runs on a second thread (thread-local state must not matter either)
     let b = run_once_on::<u32>(1, reg, root, choose, prio, script, &Fault::None);
     let det = unfinished(&a) || unfinished(&b) || (a.trace == b.trace && a.result == b.result && a.report == b.report && a.store == b.store);
-    emit_run(out, "solve", "int", reg, root, &a, &format!(" (det {})", det as u8));
+    emit_run(out, "solve", "int", reg, root, &a, &format!(" (det {}){}", det as u8, strat));
     if strings {
         let c = run_once::<String>(reg, root, choose, prio, script, &Fault::None);
         let d = run_once_on::<String>(1, reg, root, choose, prio, script, &Fault::None);
         let det = unfinished(&c) || unfinished(&d) || (c.trace == d.trace && c.result == d.result && c.report == d.report && c.store == d.store);
-        emit_run(out, "solve", "str", reg, root, &c, &format!(" (det {})", det as u8));
+        emit_run(out, "solve", "str", reg, root, &c, &format!(" (det {}){}", det as u8, strat));
     }
     a
 }
